@@ -69,11 +69,21 @@ def setup():
 
 
 # ------------------------------------------------------------------ decoding
+_DEC = {'cache': None}      # a dict: decode with maximal physical sharing (identical JSON sub-terms -> ONE object)
+
+
+def _term_dec(j):
+    if _DEC['cache'] is None:
+        return codec.term_dec(j)
+    from props.c03_terms import term_dec_shared
+    return term_dec_shared(j, _DEC['cache'])
+
+
 def dec_args(rule, a):
     from kernel.term import Inst
     from kernel.type import TyInst
     if rule in ('assume', 'implies_intr', 'reflexive', 'beta_conv', 'abstraction', 'forall_intr', 'forall_elim'):
-        return codec.term_dec(a)
+        return _term_dec(a)
     if rule == 'subst_type':
         if not isinstance(a, dict):
             raise CaseInvalid('tyinst')
@@ -81,11 +91,11 @@ def dec_args(rule, a):
     if rule == 'substitution':
         if not isinstance(a, dict):
             raise CaseInvalid('inst')
-        inst = Inst(**{str(k): codec.term_dec(v) for k, v in a.get('inst', {}).items()})
+        inst = Inst(**{str(k): _term_dec(v) for k, v in a.get('inst', {}).items()})
         for k, v in a.get('tyinst', {}).items():
             inst.tyinst[str(k)] = codec.type_dec(v)
         for k, v in a.get('var_inst', {}).items():
-            inst.var_inst[str(k)] = codec.term_dec(v)
+            inst.var_inst[str(k)] = _term_dec(v)
         for k, v in a.get('abs_name_inst', {}).items():
             inst.abs_name_inst[str(k)] = str(v)
         return inst
@@ -132,6 +142,8 @@ def check_script(steps):
     from kernel import theory
     from kernel.theory import CheckProofException
     theory.thy = _thy['thy']
+    if _DEC['cache'] is not None:
+        _DEC['cache'] = {}
     prf = build_proof(steps)
     if not prf.items:
         raise CaseInvalid('empty script')
@@ -198,6 +210,7 @@ def run_case(case, H):
     k = case.get('k', 2)
     if k not in (1, 2, 3):
         raise CaseInvalid('k')
+    _DEC['cache'] = {} if case.get('shared') else None
     try:
         with time_limit(60):
             status, prf = check_script(steps)
@@ -263,6 +276,8 @@ def run_shard(desc, seed, tier, H):
         def some_type():
             return data.draw(gen.types(opts))
 
+        shared = data.draw(st.integers(0, 2)) == 0
+        _DEC['cache'] = {} if shared else None
         n_steps = data.draw(st.integers(3, desc['steps']))
         for _ in range(n_steps):
             mode = data.draw(st.sampled_from(
@@ -505,6 +520,12 @@ def run_shard(desc, seed, tier, H):
                 T = some_type()
                 if adv:
                     t = term_of(T, True, 2)
+                elif data.draw(st.integers(0, 2)) == 0:
+                    # the same open sub-term s below one and below two binders: (%x. s = (%y. s) b) a
+                    aT = data.draw(st.sampled_from(gen.atom_types(opts)))
+                    sub = data.draw(gen.terms(opts, T, (aT,), 2))
+                    inner = ['app', ['abs', 'y', aT, sub], term_of(aT, False, 1)]
+                    t = ['app', ['abs', 'x', aT, ['app', ['app', ['c', 'equals', fun(T, T, BOOL)], sub], inner]], term_of(aT, False, 1)]
                 else:
                     aT = data.draw(st.sampled_from(gen.small_types(opts)))
                     nm = data.draw(st.sampled_from(opts.names))
@@ -544,6 +565,6 @@ def run_shard(desc, seed, tier, H):
                 ps = [draw_line() for _ in range(1 if r == 'symmetric' else 2)]
                 try_step({'rule': r, 'args': None, 'prevs': ps})
         if steps:
-            run_case({'steps': steps, 'k': desc['k']}, H)
+            run_case({'steps': steps, 'k': desc['k'], 'shared': shared} if shared else {'steps': steps, 'k': desc['k']}, H)
 
     harness.hyp_run(st.data(), body, desc['n'], seed)
